@@ -1,11 +1,11 @@
 package main
 
 import (
-	"strconv"
 	"encoding/json"
 	"fmt"
 	"os"
 	"path/filepath"
+	"strconv"
 	"strings"
 	"sync"
 
